@@ -115,6 +115,7 @@ type Sym struct {
 	noInline      map[*ssa.Function]bool
 	pointees      map[*ssa.Parameter]*Term // content of the object a pointer parameter designates, as seen at the call
 	inBufferCat   bool
+	inLoopAcc     map[*ssa.Phi]bool
 	// for closure bodies: the evaluator of the enclosing activation and the
 	// MakeClosure instruction, to resolve captured locals
 	outer   *Sym
@@ -260,6 +261,9 @@ func (s *Sym) eval(v ssa.Value) *Term {
 		}
 		return T("extract", fmt.Sprintf("%d", v.Index), tup)
 	case *ssa.Phi:
+		if t := s.loopAccumulator(v); t != nil {
+			return t
+		}
 		var args []*Term
 		same := true
 		for _, e := range v.Edges {
@@ -2355,4 +2359,45 @@ func (s *Sym) cacheFillValue(v ssa.Value) *Term {
 		return nil
 	}
 	return s.objAt(stores[0].Val, stores[0])
+}
+
+// loopAccumulator: a byte-slice phi at a loop header whose back-edge value is
+// the phi itself with bytes appended (append, quicwire.Append*, ...): the
+// accumulated value is init || each(what one iteration appends).
+func (s *Sym) loopAccumulator(ph *ssa.Phi) *Term {
+	if !isByteSliceOrString(ph.Type().Underlying()) || len(ph.Edges) != 2 || s.inLoopAcc[ph] {
+		return nil
+	}
+	b := ph.Block()
+	back := -1
+	for i, pr := range b.Preds {
+		if b.Dominates(pr) {
+			if back >= 0 {
+				return nil
+			}
+			back = i
+		}
+	}
+	if back < 0 {
+		return nil
+	}
+	if s.inLoopAcc == nil {
+		s.inLoopAcc = map[*ssa.Phi]bool{}
+	}
+	s.inLoopAcc[ph] = true
+	defer delete(s.inLoopAcc, ph)
+	marker := T("acc", ph.Name())
+	tmp := *s
+	tmp.memo = map[ssa.Value]*Term{ph: marker}
+	step := tmp.Of(ph.Edges[back])
+	if step.Op != "cat" || len(step.Args) < 2 || step.Args[0].String() != marker.String() {
+		return nil
+	}
+	for _, a := range step.Args[1:] {
+		if a.ContainsStr(marker.String()) {
+			return nil
+		}
+	}
+	init := s.Of(ph.Edges[1-back])
+	return catTerms(init, T("each", "", catTerms(step.Args[1:]...)))
 }
